@@ -72,9 +72,9 @@ JOf(p) == [e \in Epochs |-> p[e] # "none"]
 COf(p) == [e \in Epochs |-> p[e] = "com"]
 
 \* bft.NewEngine -> recoverInterruptedCommit (fix of F2), which runs BEFORE the pass at every start: if the head of the
-\* chain is a store point without a persisted quality, it is committed with the qualities as they are in the store
+\* chain is a store point it is committed (again) with the qualities as they are in the store
 Repaired(f, fin) ==
-  IF ~(RepairAtStart /\ hsp /\ f[N] = Missing) THEN <<f, fin>>
+  IF ~(RepairAtStart /\ hsp) THEN <<f, fin>>
   ELSE LET q == (IF N = 1 THEN 0 ELSE GetQ(f, N - 1)) + (IF J[N] THEN 1 ELSE 0)
            f2 == [f EXCEPT ![N] = q]
            cp == IF C[N] /\ q > 1 /\ N > fin THEN FindCP(f2, q - 1, fin, N) ELSE 0
